@@ -615,6 +615,86 @@ func (w *World) lmRenumber(n *wnode) bool {
 	return true
 }
 
+// cleaveMergeBackEpisode: the supervoxel a body is named after is cleaved out of that body and the cleaved body
+// is merged back into it (at the same version or at a child): the supervoxel's explicit mapping entry has to be
+// overwritten with the identity
+func (s *c08Sess) cleaveMergeBackEpisode() {
+	w := s.w
+	var n *wnode
+	for _, x := range w.open() {
+		if x.lm != nil {
+			n = x
+		}
+	}
+	if n == nil {
+		return
+	}
+	pick := func() (uint64, bool) {
+		bodies := w.lmBodies(n)
+		var ids []uint64
+		for b, svs := range bodies {
+			if len(svs) < 2 {
+				continue
+			}
+			for _, sv := range svs {
+				if sv == b {
+					ids = append(ids, b)
+				}
+			}
+		}
+		sort.Slice(ids, func(i, j int) bool { return ids[i] < ids[j] })
+		if len(ids) == 0 {
+			return 0, false
+		}
+		return ids[w.r.Intn(len(ids))], true
+	}
+	t, ok := pick()
+	for try := 0; !ok && try < 4; try++ {
+		if !w.lmMerge(n) {
+			w.lmIngest(n, false)
+		}
+		t, ok = pick()
+	}
+	if !ok {
+		return
+	}
+	body, _ := json.Marshal([]uint64{t})
+	r := w.must("POST", fmt.Sprintf("node/%s/lm/cleave/%d", n.uuid, t), body)
+	if !r.OK() {
+		return
+	}
+	var out struct{ CleavedLabel uint64 }
+	json.Unmarshal(r.Body, &out)
+	n.lm.m[t] = out.CleavedLabel
+	if out.CleavedLabel >= w.nextSV {
+		w.nextSV = out.CleavedLabel + 1
+	}
+	w.log("episode: lm cleave body %d svs [%d] -> %d at v%d (the supervoxel the body is named after)", t, t, out.CleavedLabel, n.v)
+	w.settle()
+	if w.r.Bool() && len(w.nodes) < 7 {
+		if ch := w.child(n, false); ch != nil {
+			n = ch
+		}
+	}
+	body, _ = json.Marshal([]uint64{t, out.CleavedLabel})
+	if r := w.must("POST", "node/"+n.uuid+"/lm/merge", body); !r.OK() {
+		return
+	}
+	for sv, b := range n.lm.m {
+		if b == out.CleavedLabel {
+			n.lm.m[sv] = t
+		}
+	}
+	w.log("episode: lm merge [%d %d] at v%d (cleaved body merged back)", t, out.CleavedLabel, n.v)
+	w.settle()
+	s.c.Count("episode cleave-eponymous-then-merge-back")
+	for _, x := range w.nodes {
+		if x.lm != nil {
+			s.checkVersion(x)
+		}
+	}
+}
+
 func runC08(c *Ctx) {
 	c.Rule = "a case is one body (or one whole-version read) of one version of a labelmap after a generated history of block ingests, mutating block overwrites (new and re-used supervoxels, supervoxels spanning blocks, background), merges, cleaves, supervoxel splits and renumberings interleaved with commit / new version / branch, compared with a scan of the written voxels under that version's supervoxel→body mapping: size, supervoxels, supervoxel-sizes, index (per block and supervoxel), sparsevol (rles, srles), sparsevol-coarse, sparsevol-size, raw and blocks (mapped and supervoxels), labels, label/<pt>, mapping, sizes, listlabels, existing-labels, maxlabel — at every version, so ancestors and siblings are re-checked after later operations; or one label-index operation compared with the Lean model. non-trivial = the body has several supervoxels or spans several blocks; distinct by content"
 	c.c08Index(map[bool]int{false: 600, true: 6000}[c.Thorough])
@@ -640,6 +720,10 @@ func runC08(c *Ctx) {
 			}
 			if i == episodeAt+3 {
 				s.deadSupervoxelEpisode()
+				continue
+			}
+			if i == episodeAt+6 {
+				s.cleaveMergeBackEpisode()
 				continue
 			}
 			open := w.open()
